@@ -229,11 +229,11 @@ func npmVK(name string, t resolve.VersionType, v string) resolve.VersionKey {
 	return resolve.VersionKey{PackageKey: npmPK(name), VersionType: t, Version: v}
 }
 
-func vkSx(k resolve.VersionKey) sx.V {
+func apiVkSx(k resolve.VersionKey) sx.V {
 	return sx.L(sx.Int(int(k.System)), sx.B(k.Name), sx.Int(int(k.VersionType)), sx.B(k.Version))
 }
 
-func verSx(v resolve.Version) sx.V { return sx.L(vkSx(v.VersionKey), dumpVer(v.AttrSet)) }
+func verSx(v resolve.Version) sx.V { return sx.L(apiVkSx(v.VersionKey), dumpVer(v.AttrSet)) }
 
 func versSx(vs []resolve.Version) sx.V {
 	out := make([]sx.V, len(vs))
@@ -247,12 +247,12 @@ func reqsSx(rs []resolve.RequirementVersion) sx.V {
 	out := make([]sx.V, len(rs))
 	for i := range rs {
 		t := rs[i].Type
-		out[i] = sx.L(vkSx(rs[i].VersionKey), dumpDep(&t))
+		out[i] = sx.L(apiVkSx(rs[i].VersionKey), dumpDep(&t))
 	}
 	return sx.L(out...)
 }
 
-func errSx(err error) sx.V {
+func apiErrSx(err error) sx.V {
 	if errors.Is(err, errBudget) || errors.Is(err, context.Canceled) {
 		return sx.L(sx.Sym("budget"))
 	}
@@ -269,25 +269,25 @@ func doOp(ctx context.Context, c resolve.Client, op sx.V) sx.V {
 	case 0:
 		v, err := c.Version(ctx, npmVK(o[1].Str(), resolve.Concrete, o[2].Str()))
 		if err != nil {
-			return errSx(err)
+			return apiErrSx(err)
 		}
 		return sx.L(sx.Sym("ok"), verSx(v))
 	case 1:
 		vs, err := c.Versions(ctx, npmPK(o[1].Str()))
 		if err != nil {
-			return errSx(err)
+			return apiErrSx(err)
 		}
 		return sx.L(sx.Sym("ok"), versSx(vs))
 	case 2:
 		rs, err := c.Requirements(ctx, npmVK(o[1].Str(), resolve.Concrete, o[2].Str()))
 		if err != nil {
-			return errSx(err)
+			return apiErrSx(err)
 		}
 		return sx.L(sx.Sym("ok"), reqsSx(rs))
 	case 3:
 		vs, err := c.MatchingVersions(ctx, npmVK(o[1].Str(), resolve.Requirement, o[2].Str()))
 		if err != nil {
-			return errSx(err)
+			return apiErrSx(err)
 		}
 		return sx.L(sx.Sym("ok"), versSx(vs))
 	}
@@ -456,12 +456,12 @@ func loadLocal(u *universe) (lc *resolve.LocalClient, ok bool) {
 
 // ---------------------------------------------------------------- recording client, graphs
 
-// recClient logs every call with its projected result. It also enforces a call
+// apiRecClient logs every call with its projected result. It also enforces a call
 // budget: the npm resolver does not terminate on every universe (install trees
 // can grow for ever), so after budget calls every further call fails and the
 // context is cancelled. The cut-off depends only on the number of calls the
 // resolver has made, hence it is the same for every client answering alike.
-type recClient struct {
+type apiRecClient struct {
 	inner  resolve.Client
 	mu     sync.Mutex
 	log    []sx.V
@@ -475,12 +475,12 @@ var errBudget = errors.New("verification harness: call budget exhausted")
 
 const defaultBudget = 1500
 
-func newRec(inner resolve.Client, quiet bool) (*recClient, context.Context) {
+func apiNewRec(inner resolve.Client, quiet bool) (*apiRecClient, context.Context) {
 	ctx, cancel := context.WithCancel(context.Background())
-	return &recClient{inner: inner, quiet: quiet, budget: defaultBudget, cancel: cancel}, ctx
+	return &apiRecClient{inner: inner, quiet: quiet, budget: defaultBudget, cancel: cancel}, ctx
 }
 
-func (r *recClient) over() bool {
+func (r *apiRecClient) over() bool {
 	r.mu.Lock()
 	defer r.mu.Unlock()
 	r.calls++
@@ -491,7 +491,7 @@ func (r *recClient) over() bool {
 	return false
 }
 
-func (r *recClient) rec(op sx.V, res sx.V) {
+func (r *apiRecClient) rec(op sx.V, res sx.V) {
 	if r.quiet {
 		return
 	}
@@ -500,53 +500,53 @@ func (r *recClient) rec(op sx.V, res sx.V) {
 	r.mu.Unlock()
 }
 
-func (r *recClient) Version(ctx context.Context, vk resolve.VersionKey) (resolve.Version, error) {
+func (r *apiRecClient) Version(ctx context.Context, vk resolve.VersionKey) (resolve.Version, error) {
 	if r.over() {
 		return resolve.Version{}, errBudget
 	}
 	v, err := r.inner.Version(ctx, vk)
 	op := sx.L(sx.Int(0), sx.B(vk.Name), sx.B(vk.Version))
 	if err != nil {
-		r.rec(op, errSx(err))
+		r.rec(op, apiErrSx(err))
 	} else {
 		r.rec(op, sx.L(sx.Sym("ok"), verSx(v)))
 	}
 	return v, err
 }
-func (r *recClient) Versions(ctx context.Context, pk resolve.PackageKey) ([]resolve.Version, error) {
+func (r *apiRecClient) Versions(ctx context.Context, pk resolve.PackageKey) ([]resolve.Version, error) {
 	if r.over() {
 		return nil, errBudget
 	}
 	vs, err := r.inner.Versions(ctx, pk)
 	op := sx.L(sx.Int(1), sx.B(pk.Name))
 	if err != nil {
-		r.rec(op, errSx(err))
+		r.rec(op, apiErrSx(err))
 	} else {
 		r.rec(op, sx.L(sx.Sym("ok"), versSx(vs)))
 	}
 	return vs, err
 }
-func (r *recClient) Requirements(ctx context.Context, vk resolve.VersionKey) ([]resolve.RequirementVersion, error) {
+func (r *apiRecClient) Requirements(ctx context.Context, vk resolve.VersionKey) ([]resolve.RequirementVersion, error) {
 	if r.over() {
 		return nil, errBudget
 	}
 	rs, err := r.inner.Requirements(ctx, vk)
 	op := sx.L(sx.Int(2), sx.B(vk.Name), sx.B(vk.Version))
 	if err != nil {
-		r.rec(op, errSx(err))
+		r.rec(op, apiErrSx(err))
 	} else {
 		r.rec(op, sx.L(sx.Sym("ok"), reqsSx(rs)))
 	}
 	return rs, err
 }
-func (r *recClient) MatchingVersions(ctx context.Context, vk resolve.VersionKey) ([]resolve.Version, error) {
+func (r *apiRecClient) MatchingVersions(ctx context.Context, vk resolve.VersionKey) ([]resolve.Version, error) {
 	if r.over() {
 		return nil, errBudget
 	}
 	vs, err := r.inner.MatchingVersions(ctx, vk)
 	op := sx.L(sx.Int(3), sx.B(vk.Name), sx.B(vk.Version))
 	if err != nil {
-		r.rec(op, errSx(err))
+		r.rec(op, apiErrSx(err))
 	} else {
 		r.rec(op, sx.L(sx.Sym("ok"), versSx(vs)))
 	}
@@ -558,7 +558,7 @@ func (r *recClient) MatchingVersions(ctx context.Context, vk resolve.VersionKey)
 // the graph error. A failed resolution is ("err" kind).
 func graphSx(g *resolve.Graph, err error) sx.V {
 	if err != nil {
-		return sx.L(sx.Sym("err"), errSx(err).Nth(0))
+		return sx.L(sx.Sym("err"), apiErrSx(err).Nth(0))
 	}
 	canonErr := g.Canon()
 	var nodes, edges []string
@@ -566,9 +566,9 @@ func graphSx(g *resolve.Graph, err error) sx.V {
 	for _, n := range g.Nodes {
 		var es []sx.V
 		for _, e := range n.Errors {
-			es = append(es, sx.L(vkSx(e.Req), sx.B(e.Error)))
+			es = append(es, sx.L(apiVkSx(e.Req), sx.B(e.Error)))
 		}
-		v := sx.L(vkSx(n.Version), sx.L(es...))
+		v := sx.L(apiVkSx(n.Version), sx.L(es...))
 		s := v.String()
 		nodes = append(nodes, s)
 		nodeSx[s] = v
@@ -576,14 +576,14 @@ func graphSx(g *resolve.Graph, err error) sx.V {
 	edgeSx := map[string]sx.V{}
 	for _, e := range g.Edges {
 		t := e.Type
-		v := sx.L(vkSx(g.Nodes[e.From].Version), vkSx(g.Nodes[e.To].Version), sx.B(e.Requirement), dumpDep(&t))
+		v := sx.L(apiVkSx(g.Nodes[e.From].Version), apiVkSx(g.Nodes[e.To].Version), sx.B(e.Requirement), dumpDep(&t))
 		s := v.String()
 		edges = append(edges, s)
 		edgeSx[s] = v
 	}
 	root := sx.L()
 	if len(g.Nodes) > 0 {
-		root = vkSx(g.Nodes[0].Version)
+		root = apiVkSx(g.Nodes[0].Version)
 	}
 	sort.Strings(nodes)
 	sort.Strings(edges)
@@ -612,8 +612,8 @@ func resolveOver(ctx context.Context, c resolve.Client, name, ver string) (g *re
 
 // resolveSx resolves name@ver over c (wrapped in a budgeted recording client)
 // and returns the projected graph and the recorder.
-func resolveSx(c resolve.Client, name, ver string, quiet bool) (sx.V, *recClient) {
-	rc, ctx := newRec(c, quiet)
+func resolveSx(c resolve.Client, name, ver string, quiet bool) (sx.V, *apiRecClient) {
+	rc, ctx := apiNewRec(c, quiet)
 	defer rc.cancel()
 	return resolveCtx(ctx, rc, name, ver), rc
 }
